@@ -7,8 +7,11 @@ package main
 import (
 	"bytes"
 	"context"
+	"errors"
 	"fmt"
 	"io"
+	"net/http"
+	"net/http/httptest"
 	"os"
 	"sync"
 	"sync/atomic"
@@ -85,7 +88,18 @@ type c40Sess struct{ N int64 }
 
 // c40Traffic drives g goroutines x rounds of mixed requests against ONE
 // server and returns the number of functional errors (wrong status / value).
-func c40Traffic(g, rounds int) (errs int64, hookRuns int64) {
+// hist: its abort entries run first (clients that hung up, sequentially), then
+// the concurrent rounds, then its plain / overlap entries (slow readers), each
+// of whose responses must decode to its own payload.
+func c40Traffic(g, rounds int, hist []c40Hop) (errs int64, hookRuns int64) {
+	var pre, post []c40Hop
+	for _, o := range hist {
+		if o.Op == "abort" {
+			pre = append(pre, o)
+		} else {
+			post = append(post, o)
+		}
+	}
 	var hr atomic.Int64
 	var h *vgirpc.HttpServer
 	var s *vgirpc.Server
@@ -98,6 +112,7 @@ func c40Traffic(g, rounds int) (errs int64, hookRuns int64) {
 	defer sf.Close()
 	sessHdr, acceptHdr := vgirpc.VerifC13SessionHeaders()
 	var nerr atomic.Int64
+	c40CodecHistory(h, pre)
 	bad := func(what string, a ...any) {
 		nerr.Add(1)
 		if nerr.Load() < 5 {
@@ -222,6 +237,20 @@ func c40Traffic(g, rounds int) (errs int64, hookRuns int64) {
 	}
 	close(start)
 	wg.Wait()
+	// slow-reader overlaps after the aborted responses and the traffic
+	over, _ := c40CodecHistory(h, post)
+	for k, o := range post {
+		want := o.Xs
+		if o.Op == "plain" {
+			want = []int64{o.X}
+		}
+		for i := range want {
+			if over[k][i] != want[i] {
+				nerr.Add(1)
+				fmt.Fprintf(os.Stderr, "c40 traffic: response decoded to %d, want %d\n", over[k][i], want[i])
+			}
+		}
+	}
 	if hr.Load() != 1 {
 		bad("serve-start hook ran %d times", hr.Load())
 	}
@@ -231,3 +260,219 @@ func c40Traffic(g, rounds int) (errs int64, hookRuns int64) {
 	return nerr.Load(), hr.Load()
 }
 
+
+// ------------------------------------------------- compressed-response history
+
+// c40GoneWriter is a client that hangs up mid-response: writes succeed while
+// the running total stays within after bytes, every later write fails.
+type c40GoneWriter struct {
+	hdr   http.Header
+	seen  int
+	after int
+}
+
+func (w *c40GoneWriter) Header() http.Header { return w.hdr }
+func (w *c40GoneWriter) WriteHeader(int)     {}
+func (w *c40GoneWriter) Write(p []byte) (int, error) {
+	w.seen += len(p)
+	if w.seen > w.after {
+		return 0, errors.New("write: broken pipe (client went away)")
+	}
+	return len(p), nil
+}
+
+// c40SlowWriter is a slow reader: its first body Write blocks until release is
+// closed (or 5 s), keeping the response's codec writer checked out meanwhile.
+type c40SlowWriter struct {
+	*httptest.ResponseRecorder
+	once    sync.Once
+	entered chan struct{}
+	release chan struct{}
+}
+
+func (w *c40SlowWriter) Write(p []byte) (int, error) {
+	w.once.Do(func() {
+		close(w.entered)
+		select {
+		case <-w.release:
+		case <-time.After(5 * time.Second):
+		}
+	})
+	return w.ResponseRecorder.Write(p)
+}
+
+type c40Hop struct {
+	Op    string  `json:"op"`              // abort | plain | overlap
+	Codec int     `json:"codec,omitempty"` // 0 gzip, 1 zstd
+	After int     `json:"after,omitempty"` // abort: the client's writer fails after this many bytes
+	X     int64   `json:"x,omitempty"`     // plain: payload
+	Xs    []int64 `json:"xs,omitempty"`    // overlap: payloads, the first is the slow reader
+}
+
+// c40Resp: >= 0 the value the response decoded to, -1 bad (undecodable, wrong
+// shape, panic, status), -2 stuck (did not complete under the watchdog).
+const (
+	c40RespBad   = -1
+	c40RespStuck = -2
+)
+
+func c40CodecHdr(codec int) map[string]string {
+	if codec == 0 {
+		return map[string]string{"Accept-Encoding": "gzip"}
+	}
+	return map[string]string{"Accept-Encoding": "zstd"}
+}
+
+func c40UnaryReq(x int64, codec int) *http.Request {
+	req := httptest.NewRequest("POST", "/u_int", bytes.NewReader(ReqBytes(PIntBatch(x), StdMeta("u_int", "r", ""))))
+	req.Header.Set("Content-Type", "application/vnd.apache.arrow.stream")
+	for k, v := range c40CodecHdr(codec) {
+		req.Header.Set(k, v)
+	}
+	return req
+}
+
+// c40DecodeUnary: the int64 the (possibly compressed) unary response carries.
+func c40DecodeUnary(rec *httptest.ResponseRecorder, escaped any) (val int64, compressed bool) {
+	if escaped != nil || rec.Code != 200 {
+		return c40RespBad, false
+	}
+	enc := rec.Header().Get("Content-Encoding")
+	if enc == "" {
+		enc = rec.Header().Get("X-VGI-Content-Encoding")
+	}
+	data, err := vgirpc.DecodeContentEncoding(rec.Body.Bytes(), enc, 1<<26)
+	if err != nil {
+		return c40RespBad, enc != ""
+	}
+	var st []RStream
+	func() {
+		defer func() {
+			if recover() != nil {
+				st = nil
+			}
+		}()
+		st = ParseStreams(data)
+	}()
+	if len(st) != 1 || len(st[0].Frames) == 0 {
+		return c40RespBad, enc != ""
+	}
+	f := st[0].Frames[len(st[0].Frames)-1]
+	if f.Kind != "data" || len(f.Vals) != 1 || f.Vals[0] < 0 {
+		return c40RespBad, enc != ""
+	}
+	return f.Vals[0], enc != ""
+}
+
+// c40CodecHistory runs a history of compressed responses against one server.
+// Every wait is bounded.
+func c40CodecHistory(h http.Handler, hist []c40Hop) (out [][]int64, ncompressed int) {
+	serve := func(w http.ResponseWriter, r *http.Request) (escaped any) {
+		defer func() { escaped = recover() }()
+		h.ServeHTTP(w, r)
+		return nil
+	}
+	for _, op := range hist {
+		switch op.Op {
+		case "abort":
+			done := make(chan struct{})
+			go func() {
+				defer close(done)
+				serve(&c40GoneWriter{hdr: http.Header{}, after: op.After}, c40UnaryReq(999, op.Codec))
+			}()
+			select {
+			case <-done:
+			case <-time.After(3 * time.Second):
+			}
+			out = append(out, []int64{})
+		case "plain":
+			rec := httptest.NewRecorder()
+			var esc any
+			done := make(chan struct{})
+			go func() { defer close(done); esc = serve(rec, c40UnaryReq(op.X, op.Codec)) }()
+			select {
+			case <-done:
+				v, c := c40DecodeUnary(rec, esc)
+				if c {
+					ncompressed++
+				}
+				out = append(out, []int64{v})
+			case <-time.After(3 * time.Second):
+				out = append(out, []int64{c40RespStuck})
+			}
+		default: // overlap
+			res := make([]int64, len(op.Xs))
+			if len(op.Xs) == 0 {
+				out = append(out, res)
+				continue
+			}
+			a := &c40SlowWriter{ResponseRecorder: httptest.NewRecorder(), entered: make(chan struct{}), release: make(chan struct{})}
+			var aEsc any
+			aDone := make(chan struct{})
+			go func() { defer close(aDone); aEsc = serve(a, c40UnaryReq(op.Xs[0], op.Codec)) }()
+			select {
+			case <-a.entered:
+			case <-aDone:
+			case <-time.After(3 * time.Second):
+			}
+			// the others run start to finish while A's encoder is checked out
+			type late struct {
+				i    int
+				rec  *httptest.ResponseRecorder
+				esc  *any
+				done chan struct{}
+			}
+			var lates []late
+			for i := 1; i < len(op.Xs); i++ {
+				rec := httptest.NewRecorder()
+				var esc any
+				done := make(chan struct{})
+				go func(x int64) { defer close(done); esc = serve(rec, c40UnaryReq(x, op.Codec)) }(op.Xs[i])
+				select {
+				case <-done:
+					v, c := c40DecodeUnary(rec, esc)
+					if c {
+						ncompressed++
+					}
+					res[i] = v
+				case <-time.After(3 * time.Second):
+					res[i] = c40RespStuck
+					lates = append(lates, late{i, rec, &esc, done})
+				}
+			}
+			close(a.release)
+			select {
+			case <-aDone:
+				v, c := c40DecodeUnary(a.ResponseRecorder, aEsc)
+				if c {
+					ncompressed++
+				}
+				res[0] = v
+			case <-time.After(8 * time.Second):
+				res[0] = c40RespStuck
+			}
+			for _, l := range lates {
+				select {
+				case <-l.done:
+				case <-time.After(3 * time.Second):
+				}
+			}
+			out = append(out, res)
+		}
+	}
+	return out, ncompressed
+}
+
+// c40RaceHistory is the history the race traffic is wrapped in: first clients
+// that hang up before any byte, inside the body and only in the codec's
+// trailing flush, for both codecs; after the rounds, slow-reader overlaps.
+func c40RaceHistory() []c40Hop {
+	var h []c40Hop
+	for _, codec := range []int{0, 1} {
+		for _, after := range []int{0, 10, 10, 10, 11, 40, 200, 1 << 20} {
+			h = append(h, c40Hop{Op: "abort", Codec: codec, After: after})
+		}
+	}
+	h = append(h, c40Hop{Op: "overlap", Codec: 0, Xs: []int64{11, 12, 13}}, c40Hop{Op: "overlap", Codec: 1, Xs: []int64{21, 22, 23}})
+	return h
+}
